@@ -47,9 +47,15 @@ LawFails(e) ==
      \cup Why(Holds(r.eq_reindex, "TT"), "A-not-equiv-Reindex(A)")
      \cup Why(Holds(r.eq_reload, "TT"), "A-not-equiv-Load(Dump(A))")
 
+\* a pair and its twin presentation (states renamed, rules / symbols in another order): one verdict for all 16 calls
+TwinFails(e) ==
+  LET vs == Rng(e.res.v) \cup Rng(e.res.v_twin)
+  IN Why(\A x \in vs : Verdict(x), "call-threw") \cup Why(AllSame(vs), "selections-or-twin-disagree")
+
 Fails(e) ==
   IF e.outcome # "ok" THEN {"outcome:" \o e.outcome}
-  ELSE IF e.op = "laws" THEN LawFails(e) ELSE {"unknown-op"}
+  ELSE IF e.op = "laws" THEN LawFails(e)
+  ELSE IF e.op = "twin" THEN TwinFails(e) ELSE {"unknown-op"}
 
 VARIABLE l
 Init == l \in 1..Len(Tr)
